@@ -696,12 +696,18 @@ func (tt *TermTable) FIsNaN(a *Term) *Term {
 	if a.Const {
 		return tt.Bool(a.F != a.F)
 	}
+	if _, ok := tt.fpBound(a); ok {
+		return tt.Bool(false) // provably finite
+	}
 	return tt.mk("fp.isNaN", BoolSort, [2]int{}, a)
 }
 
 func (tt *TermTable) FIsInf(a *Term) *Term {
 	if a.Const {
 		return tt.Bool(math.IsInf(a.F, 0))
+	}
+	if _, ok := tt.fpBound(a); ok {
+		return tt.Bool(false) // provably finite
 	}
 	return tt.mk("fp.isInfinite", BoolSort, [2]int{}, a)
 }
